@@ -132,6 +132,17 @@ def inputs(ctx):
                         f += len(ln["syms"]) * 2 + 40
                 ins.append({"id": "m%d" % n, "lines": lines, "doubled": doubled})
                 n += 1
+    # the same two shapes across an hour boundary (00:59:58 -> 01:00:01)
+    for drop in (False, True):
+        for kind in ("R", "P"):
+            part = (paint_program(rng, 3, drop, True) if kind == "P" else roll_program(rng, 3, 15, 3, drop, False, final_cr=True))
+            f = 30 * 3600 - 60
+            lines = []
+            for ln in part:
+                lines.append({"tc": _tc(f), "drop": drop, "syms": ln["syms"]})
+                f += len(ln["syms"]) * 2 + 50
+            ins.append({"id": "h%d" % n, "lines": lines, "doubled": n % 2 == 0})
+            n += 1
     for k in range(400 if ctx.quick else 80000):
         drop = rng.random() < 0.5
         parts = []
@@ -145,7 +156,8 @@ def inputs(ctx):
                 parts.append(paint_program(rng, rng.randrange(1, 5), drop, rng.random() < 0.5, rich=rng.random() < 0.6))
         # concatenate the parts on one time line
         lines = []
-        f = rng.randrange(30, 3000)
+        # now and then late in the day, or across an hour boundary
+        f = rng.choice([rng.randrange(30, 3000)] * 3 + [rng.randrange(0, 30 * 3600 * 23), 30 * 3600 * rng.randrange(1, 23) - rng.randrange(30, 200)])
         for p in parts:
             for ln in p:
                 lines.append({"tc": _tc(f), "drop": drop, "syms": ln["syms"]})
